@@ -209,7 +209,9 @@ impl<R: Round, const B: Word> FBig<R, B> {
         let new_context = Context::new(precision);
 
         // shrink if necessary
-        let repr = if !self.context.is_limited() || self.context.precision > precision {
+        let repr = if self.repr.is_finite()
+            && (!self.context.is_limited() || self.context.precision > precision)
+        {
             // an unlimited source (precision 0) is larger than any explicit precision;
             // an unlimited target is handled by repr_round (it never rounds)
             new_context.repr_round(self.repr)
